@@ -55,13 +55,34 @@ def _cast(x, dtype):
     return x
 
 
+class LayoutAccess(Unsupported):
+    """the target read a storage-layout attribute (.data/.indices/.indptr/.nnz/.row/.col) of a matrix whose sparsity pattern is abstracted
+    (dense-backed model).  What such code does depends on the layout, which this model does not have: the harness has to decide it on a
+    matrix with a concrete pattern (exact-order model) instead."""
+
+
+_LAYOUT_ATTRS = ("data", "indices", "indptr", "nnz", "row", "col", "has_sorted_indices", "has_canonical_format")
+
+
 class _Base:
     ndim = 2
     _dense_backed = False
 
+    @property
+    def dtype(self):
+        if self._dense_backed:
+            vals = list(np.asarray(self._M, dtype=object).reshape(-1))
+        else:
+            vals = list(self.__dict__.get("data", ()))
+        return np.dtype(bool) if vals and all(isinstance(v, (bool, np.bool_)) for v in vals) else np.dtype(float)
+
     def __getattr__(self, nm):
         if nm.startswith("__") or nm in ("_c", "_M"):
             raise AttributeError(nm)
+        if nm == "nnz" and not self._dense_backed and "data" in self.__dict__:
+            return len(self.__dict__["data"])
+        if self._dense_backed and nm in _LAYOUT_ATTRS:
+            raise LayoutAccess(f"sparse model: storage layout attribute {nm!r} of the pattern-abstract {type(self).__name__}")
         raise Unsupported(f"sparse model: attribute {nm!r} of {type(self).__name__} is not modelled")
 
     def toarray(self):
